@@ -1,1 +1,54 @@
-// hook module body (h4_dp): re-exports / tests that need access to items private to this module's parent.
+// hook module body (h4_dp): lives in `crate::protocol::dp::ipa_verif_h4`.
+// Thin `pub(crate)` wrappers around items that are private to `protocol::dp`, for the root
+// harness (property C12). No logic here: every method forwards to the item under test.
+
+use rand_core::{CryptoRng, RngCore};
+
+use super::{NoiseParams, ShiftedTruncatedDiscreteLaplace};
+use crate::{
+    error::Error,
+    ff::{U128Conversions, boolean_array::BooleanArray},
+    helpers::Direction,
+    secret_sharing::replicated::semi_honest::AdditiveShare as Replicated,
+};
+
+/// `ShiftedTruncatedDiscreteLaplace` is a private struct of `protocol::dp` (it cannot be
+/// re-exported), so the harness reaches it through this newtype.
+pub(crate) struct Stdl(ShiftedTruncatedDiscreteLaplace);
+
+#[allow(dead_code)]
+impl Stdl {
+    /// `ShiftedTruncatedDiscreteLaplace::new` (asserts `bit_size <= 32`)
+    pub(crate) fn new(noise_params: &NoiseParams, bit_size: u32) -> Result<Self, Error> {
+        ShiftedTruncatedDiscreteLaplace::new(noise_params, bit_size).map(Self)
+    }
+
+    /// the private field `shift` (= truncation point n used to re-centre the sample)
+    pub(crate) fn shift(&self) -> u32 {
+        self.0.shift
+    }
+
+    /// the private field `modulus`
+    pub(crate) fn modulus(&self) -> u64 {
+        self.0.modulus
+    }
+
+    /// truncation point of the wrapped distribution
+    pub(crate) fn inner_shift(&self) -> u32 {
+        self.0.truncated_discrete_laplace.get_shift()
+    }
+
+    /// the private `sample` (un-centred draw in 0..=2n)
+    pub(crate) fn sample<R: RngCore + CryptoRng>(&self, rng: &mut R) -> u32 {
+        self.0.sample(rng)
+    }
+
+    /// `sample_shares`
+    pub(crate) fn sample_shares<R, OV>(&self, rng: &mut R, direction_to_excluded_helper: Direction) -> Replicated<OV>
+    where
+        R: RngCore + CryptoRng,
+        OV: BooleanArray + U128Conversions,
+    {
+        self.0.sample_shares(rng, direction_to_excluded_helper)
+    }
+}
